@@ -138,7 +138,7 @@ func runHistory(c Case, r *vcore.Rec, obs ...Observer) (*Exec, *vcore.Failure) {
 	return x, f
 }
 
-var c01Params = &HistoryParams{MinOps: 15, MaxOps: 60, Episodes: true, Cloud: 1, Lag: true, Ranges: true}
+var c01Params = &HistoryParams{MinOps: 15, MaxOps: 60, Episodes: true, Cloud: 1, Lag: true, Ranges: true, FaultPct: 25}
 
 func checkC01(c Case, r *vcore.Rec) *vcore.Failure {
 	if f := maybeEnumerate(c, r, func() []Observer { return []Observer{&ObsC01{}} }); f != nil {
@@ -159,6 +159,7 @@ func checkC01(c Case, r *vcore.Rec) *vcore.Failure {
 		r.NonTrivial()
 	}
 	r.ClassIf(o.Realloc, "ip_reallocated")
+	r.ClassIf(x.W.faultHitEver, "api_call_failed")
 	return f
 }
 
@@ -166,7 +167,7 @@ func TestC01(t *testing.T) {
 	vcore.Run(t, "C01", rapid.Custom(func(t *rapid.T) Case { return GenHistory(t, c01Params) }), checkC01)
 }
 
-var c04Params = &HistoryParams{MinOps: 15, MaxOps: 50, Episodes: true, Cloud: 1, Lag: true, Reloads: true,
+var c04Params = &HistoryParams{MinOps: 15, MaxOps: 50, Episodes: true, Cloud: 1, Lag: true, Reloads: true, FaultPct: 25,
 	Weights: map[string]int{"create": 18, "delete": 14, "phase": 10, "drop": 0, "restart": 1, "apirelease": 5, "resync": 6,
 		"reserve": 0, "unreserve": 0, "fipevent": 0, "poolapi": 1},
 	Kinds: []string{"sts", "sts", "dp", "cr", "bare", "dppool"}}
@@ -184,6 +185,7 @@ func checkC04(c Case, r *vcore.Rec) *vcore.Failure {
 		r.NonTrivial()
 		r.Class("release_path_with_live_replacement")
 	}
+	r.ClassIf(x.W.faultHitEver, "api_call_failed")
 	return f
 }
 
